@@ -259,13 +259,18 @@ fn gen_c04(seed: u64, idx: usize, tier: Tier) -> RunScenario {
     let mut behav = behav;
     // now and then one child is much slower than everything else in real time (timers inside
     // monorail are on the real clock here): preferably one that others depend on
-    let slow = if tier == Tier::Thorough { rng.chance(1, 30) } else { rng.chance(1, 45) };
+    let slow = if tier == Tier::Thorough { rng.chance(1, 30) } else { rng.chance(1, 30) };
     if slow && !behav.is_empty() {
         let prio = deps_last_prio(&spec);
         let best = prio.iter().max_by_key(|p| p.1).map(|p| p.0.clone()).unwrap_or_default();
         let cands: Vec<usize> = (0..behav.len()).filter(|&i| behav[i].target == best).collect();
         let i = if cands.is_empty() { rng.below(behav.len()) } else { cands[rng.below(cands.len())] };
         behav[i].exit_pause_ms = if tier == Tier::Thorough { *rng.pick(&[1200u32, 6000, 6000, 12000, 31000]) } else { *rng.pick(&[1200u32, 6000, 6000]) };
+        if rng.chance(1, 2) {
+            // ... and it has closed both its output streams long before (`exec >build.log 2>&1`)
+            behav[i].outs.push(crate::rundrv::OutStep { fd: 1, hex: "-".into(), pause_ms: 0, close: true });
+            behav[i].outs.push(crate::rundrv::OutStep { fd: 2, hex: "-".into(), pause_ms: 0, close: true });
+        }
     }
     let mut script = RunScript::simple(opts);
     script.behav = behav;
@@ -297,6 +302,23 @@ fn exec_with(v: &Value, f: impl Fn(&RunCtx, &mut Outcome)) -> Outcome {
         }
         p
     });
+    let prior = match prior {
+        Some(p) => Some(p),
+        None => v["prior_only"].as_array().filter(|a| !a.is_empty()).map(|a| {
+            let mut p = sc.script.clone();
+            p.env_actions.clear();
+            p.kill = None;
+            p.strategy = Strategy::PlanOrder;
+            p.opts.targets = a.iter().filter_map(|x| x.as_str().map(String::from)).collect();
+            p.opts.deps = false;
+            for b in p.behav.iter_mut() {
+                b.early_exit = false;
+                b.outs.truncate(1);
+                b.code = 0;
+            }
+            p
+        }),
+    };
     match crate::runworld::execute_run_with(&sc, None, listener, prior.as_ref()) {
         Prepared::Skip(r) => Outcome::skip(&r),
         Prepared::Ctx(ctx) => {
@@ -306,7 +328,7 @@ fn exec_with(v: &Value, f: impl Fn(&RunCtx, &mut Outcome)) -> Outcome {
                 out.fault("log_tail_listener_attached_to_the_run", 1);
             }
             if prior.is_some() {
-                out.fault("earlier_run_with_failed_members_in_the_history", 1);
+                out.fault(if v["prior_only"].is_array() { "earlier_run_of_a_single_member_in_the_history" } else { "earlier_run_with_failed_members_in_the_history" }, 1);
             }
             if ctx.trace.env_actions_done > 0 {
                 out.fault("command_file_made_executable_while_the_run_was_in_progress", ctx.trace.env_actions_done as u64);
@@ -399,8 +421,17 @@ fn gen_c16(seed: u64, idx: usize, tier: Tier) -> RunScenario {
         targets.push(crate::world::TargetSpec { path: "base".into(), ..Default::default() });
         base_uses.push("base".to_string());
     }
+    // one scenario in ten: two members of the wide layer have names that differ only in letter case
+    let case_pair = wide >= 4 && rng.chance(1, 10);
     for i in 0..wide {
-        targets.push(crate::world::TargetSpec { path: format!("w{:02}", i), uses: base_uses.clone(), ..Default::default() });
+        let path = if case_pair && i == 1 {
+            "wcase".to_string()
+        } else if case_pair && i == 2 {
+            "wCASE".to_string()
+        } else {
+            format!("w{:02}", i)
+        };
+        targets.push(crate::world::TargetSpec { path, uses: base_uses.clone(), ..Default::default() });
     }
     if pos == 1 {
         targets.push(crate::world::TargetSpec { path: "top".into(), uses: vec!["w00".into()], ..Default::default() });
@@ -442,7 +473,7 @@ fn gen_c16(seed: u64, idx: usize, tier: Tier) -> RunScenario {
             files.push((format!("{}/monorail/argmap/base.json", t.path), body.clone()));
         }
     }
-    let spec = WorldSpec { targets, cmd_files, files, sequences: vec![], max_retained_runs: 2, gitignore: vec![], git: true, lock_host: None, default_ports: 0 };
+    let spec = WorldSpec { targets, cmd_files, files, sequences: vec![], max_retained_runs: 2, gitignore: vec![], git: true, lock_host: None, default_ports: 0, omit_max_retained: false };
     let opts = RunOpts { commands: cmds.iter().map(|s| s.to_string()).collect(), ..Default::default() };
     let mut script = RunScript::simple(opts);
     // one scenario in four: a few members of the wide layer exit the moment they have started, while monorail is
@@ -521,6 +552,16 @@ pub fn check_c16(ctx: &RunCtx, out: &mut Outcome) {
     // every member that defines the command was really started (a member whose process never ran cannot have
     // been concurrent with anything), whatever the document says about it
     if !nonexec && tr.code() == Some(0) {
+        // these worlds run every configured target (no checkpoint, no -t): a member that silently dropped out of
+        // the plan did not take part in the rendezvous either
+        for c in &ctx.commands {
+            for t in &ctx.sc.spec.targets {
+                if definition(&ctx.sc.spec, c, &t.path) == Def::Defined && !tr.helpers.iter().any(|h| h.command == *c && h.target == t.path) {
+                    out.violate("rendezvous", "member_never_started", format!("'{}' for '{}' is defined, the run covers every target and succeeded, but no process was ever started for it", c, t.path));
+                    return;
+                }
+            }
+        }
         if let Some(d) = &doc {
             for (c, gs) in result_groups(d) {
                 for g in gs {
@@ -569,6 +610,14 @@ impl Property for C16 {
                     rng.shuffle(&mut f);
                     f.truncate(k);
                     v["prior_failed"] = json!(f);
+                }
+            }
+        } else if v["with_listener"] != true && rng.chance(1, 8) {
+            // or: the latest recorded run covered a single member of the wide layer only (`run -c X -t w03`)
+            if let Ok(sc) = from_val(&v) {
+                let ws: Vec<String> = sc.spec.targets.iter().filter(|t| t.path.starts_with('w')).map(|t| t.path.clone()).collect();
+                if ws.len() >= 3 && sc.script.nofile.is_none() && sc.spec.cmd_files.iter().all(|c| c.exec) {
+                    v["prior_only"] = json!([ws[rng.below(ws.len())].clone()]);
                 }
             }
         }
@@ -1368,7 +1417,7 @@ fn gen_c11(seed: u64, idx: usize, _tier: Tier) -> (RunScenario, C11Extra) {
     if rng.chance(2, 3) {
         rng.shuffle(&mut targets);
     }
-    let spec = WorldSpec { targets, cmd_files, files, sequences: vec![], max_retained_runs: 2, gitignore: vec![], git: true, lock_host: None, default_ports: 0 };
+    let spec = WorldSpec { targets, cmd_files, files, sequences: vec![], max_retained_runs: 2, gitignore: vec![], git: true, lock_host: None, default_ports: 0, omit_max_retained: false };
     let mut opts = RunOpts::default();
     let k = rng.range(1, cmds.len());
     opts.commands = cmds[..k].to_vec();
